@@ -418,12 +418,16 @@ def C15(m, rnd):
     except Exception as e:
         col.add("decode-raises", exc(e))
         return col.result()
-    try:
-        jd = m.to_dict()
-    except Exception as e:
-        jd = None
-        col.add("to_dict-raises", exc(e))
     for f, idx, v in items:
+        # JSON form of this one value, isolated from the other fields of m
+        try:
+            probe = cls()
+            setattr(probe, f.name, [v] if f.label == "repeated" else v)
+            jd = probe.to_dict()
+            jidx = None if idx is None else 0
+        except Exception as e:
+            jd, jidx = None, None
+            col.add("to_dict-raises:%s-%s" % (f.elem_kind, C.valclass(f.elem_kind, v)), exc(e))
         ek = f.elem_kind
         vc = C.valclass(ek, v)
         refmsg = timestamp_pb2.Timestamp() if f.is_timestamp else duration_pb2.Duration()
@@ -457,8 +461,8 @@ def C15(m, rnd):
         if jd is not None:
             key = betterproto.casing.camel_case(f.name)
             js = jd.get(key)
-            if idx is not None and isinstance(js, list):
-                js = js[idx] if idx < len(js) else None
+            if jidx is not None and isinstance(js, list):
+                js = js[jidx] if jidx < len(js) else None
             zero = v == (C.EPOCH if f.is_timestamp else timedelta(0))
             if js is None:
                 continue  # whether a zero value is emitted is C04/C06's subject
@@ -640,14 +644,14 @@ def C20(m, rnd):
             got = _locate(d, f, loc)
             if undefined:
                 if got is None or int(got) != n:
-                    col.add("binary-roundtrip:%s-enum-%s" % (where, vc), "%d comes back as %s" % (n, short(got)))
+                    col.add("binary-roundtrip:enum-%s" % vc, "%d in %s position comes back as %s" % (n, where, short(got)))
             else:
                 canonical = C.Color(n)
                 if got is not canonical:
                     same_number = got is not None and int(got) == n
                     col.add(
-                        "decode-noncanonical:%s-enum-%s%s" % (where, vc, "" if not same_number else "-number-kept"),
-                        "declared member %r decodes as %s (name %r)" % (canonical, short(got), getattr(got, "name", None)),
+                        "decode-noncanonical:enum-%s%s" % (vc, "" if not same_number else "-number-kept"),
+                        "declared member %r in %s position decodes as %s (name %r)" % (canonical, where, short(got), getattr(got, "name", None)),
                     )
         if jd is not None and undefined:
             got = _locate(jd, f, loc)
